@@ -253,6 +253,43 @@ def check_guards(out, facts, S, D):
                         lambda n: n <= 0x1fffffff, fn['loc'], 'bits')
     elif cfg in ('D', 'E'):
         out.fail('R03.2', 'BitVec bit-length check [%s]' % cfg, 'decoder not found', '-')
+    # ... and the encoder side of the same limit: a bit sequence the decoder would reject is refused by the encoder (it
+    # panics), so everything that is encoded decodes again (C02 / C16 for the bit-sequence aliases)
+    fe = facts.impl_method('Encode', 'bitvec::slice::BitSlice<T, O>', 'encode_to')
+    if fe:
+        ev = sym.Evaluator(facts)
+        ctx = sym.Ctx(ev, fe)
+        ctx.env[fe['params'][0]['v']] = ('self',)
+        for p_ in fe['params'][1:]:
+            ctx.env[p_['v']] = ('param', p_['name'], p_.get('ty'))
+        _v, te = ev.ev(fe['thir'], ctx)
+        why = []
+        for n in (0, 1, 0x1fffffff, 0x20000000, 2 ** 32 - 1, 2 ** 32, 2 ** 40):
+            def leafe(x, n=n):
+                x = strip(x)
+                if isinstance(x, tuple) and len(x) > 3 and x[0] == 'call' and x[1] == 'len' and x[3] and sym.vstr(x[3][0]).lstrip('&*') == 'self':
+                    return n
+                return None
+            got = set()
+            for p_ in paths(te):
+                okp = True
+                for e in p_:
+                    if e[0] == 'ARM' and isinstance(e[1], tuple) and e[1][0] == 'if':
+                        try:
+                            c = eval_expr(e[1][1], leafe)
+                        except ArithPanic:
+                            c = None
+                        if c is not None and bool(c) != (e[2] == 'true'):
+                            okp = False
+                            break
+                if okp:
+                    got.add('PANIC' if any(e[0] in ('PANIC', 'ERR') or (e[0] == 'RET') for e in p_ if e[0] in ('PANIC',)) else 'OK')
+            want = 'OK' if n <= 0x1fffffff else 'PANIC'
+            if got != {want}:
+                why.append('bits = %d: encoder outcomes %s, expected %s (the decoder %s this length)' % (n, sorted(got), want, 'accepts' if want == 'OK' else 'rejects'))
+        out.ob('R03.2', 'BitSlice encoder refuses more than 2^29-1 bits [%s]' % cfg, not why, '; '.join(why[:3]), fe['loc'])
+    elif cfg in ('D', 'E'):
+        out.fail('R03.2', 'BitSlice encoder bit-length check [%s]' % cfg, 'encoder not found', '-')
 
 
 def _drop_after_kernel(t):
